@@ -664,6 +664,25 @@ theorem geohash_scale_contains (lat lon : F64) (h1 : F64.gt (F64.abs lat) MathF.
 example : F64.gt (F64.abs (.fin false 91 (-1))) MathF.qd = false ∧ (F64.fin false 1 (-2)).isFinite = true := by
   decide +kernel
 
+/-- **OSGB, first scale step** (`xh = ⌊x / tile⌋`, one rounded division): for every finite easting/northing with
+`|x| ≤ 10^7` m and `n = ⌊x / 10^5⌋` (exact), the coded 100 km tile index is `n`, or `n + 1` when the rounded quotient is
+exactly `n + 1` (class F2).  The later steps of `GridReference` (`x − tile·xh`, the digit scaling) are not covered. -/
+theorem osgb_tile_contains (s : Bool) (m : ℕ) (e : ℤ) (hx : |(F64.fin s m e).val| ≤ 10000000) (n : ℤ)
+    (h1 : (n:ℚ) ≤ (F64.fin s m e).val / 100000) (h2 : (F64.fin s m e).val / 100000 < (n:ℚ) + 1) :
+    CellRelQ ((F64.fin s m e).val / 100000) ((F64.fin s m e) / F64.ofInt osgb_tile).val n
+      (OSGB.fl ((F64.fin s m e) / F64.ofInt osgb_tile)) := by
+  have ht : F64.ofInt osgb_tile = .fin false 100000 0 := rfl
+  have hv : (F64.fin false 100000 0).val = 100000 := by rw [F64.val_fin]; simp
+  have hq : |(F64.fin s m e).val / (F64.fin false 100000 0).val| ≤ 2 ^ 52 := by
+    rw [hv, abs_div, abs_of_pos (by norm_num : (0:ℚ) < 100000), div_le_iff₀ (by norm_num)]
+    have : (10000000:ℚ) ≤ 2 ^ 52 * 100000 := by norm_num
+    linarith
+  have := divFloor_contains s false m 100000 e 0 (by norm_num) n hq (by rw [hv]; exact h1) (by rw [hv]; exact h2)
+  rw [hv] at this
+  rw [ht]
+  exact ⟨⟨h1, h2⟩, this.2⟩
+
+
 end GeohashScale
 
 /-! ### integer codec round trips (all inputs)
